@@ -112,6 +112,39 @@ def punct_cases():
     return out
 
 
+def climb_cases():
+    """parent(n) after every kind of segment that hands it coordinates:
+    slices (virtual lists), anchors, indexes, wildcards and traversal, landing
+    at every depth from the root to the node itself."""
+    docs = [
+        ("m", (("a", ("l", ("p", "q", "r", "s"))), ("b", 1000))),
+        ("l", ("p", "q", "r")),
+        ("m", (("a", ("m", (("b", ("l", (("m", (("a", 1000),)),
+                                          ("m", (("a", "a"),)), "r"))),))),)),
+        ("l", (("l", ("p", "q", "r")), ("l", ("s",)))),
+        ("m", (("a", ("l", (("&", "A", ("m", (("a", 1000), ("b", "q")))),
+                            ("*", "A"), ("m", (("a", "z"),))))),
+               ("b", ("&", "B", "q")), ("c", ("*", "B")))),
+        ("m", (("a", ("m", (("p", 1), ("q", 2), ("r", 3)))),)),
+    ]
+    heads = [(("key", "a"),), (), (("key", "a"), ("key", "b")), (("idx", 0),)]
+    mids = [("slice", 0, 2), ("slice", 1, 3), ("slice", -3, -1),
+            ("slice", 1, 1), ("slice", "p", "q"), ("anchor", "A"),
+            ("anchor", "B"), ("idx", 0), ("idx", -1), ("all",), ("trav",)]
+    tails = [(), (("key", "a"),), (("idx", 0),)]
+    plist = []
+    for head in heads:
+        for mid in mids:
+            for tail in tails:
+                for n in ((), ("0",), ("1",), ("2",), ("3",)):
+                    segs = head + (mid,) + tail + (
+                        ("kw", "parent", n, False),)
+                    plist.append(rp(segs))
+                    if n in ((), ("2",)):
+                        plist.append(rp(segs + (("kw", "parent", (), False),)))
+    return [(d, plist) for d in docs]
+
+
 def plan(tier):
     global CASES
     voc = paths.vocab("c01-quick")
@@ -130,6 +163,7 @@ def plan(tier):
     for spec in corpus.collision_pack():
         CASES.append((spec, p1 + p2))
     CASES += punct_cases()
+    CASES += climb_cases()
     bounds = {"documents": len(CASES),
               "queries": sum(len(p) for _, p in CASES),
               "two_segment_paths_on_documents_up_to_nodes": small,
@@ -190,6 +224,11 @@ def check_query(st, doc, text, shp, segs, ptxt, cache):
                 or qrun.is_name_result(nc):
             st.extra["virtual_results_skipped"] += 1
             continue
+        if type(nc.parent) is list:
+            # an element addressed *inside* a virtual list ([1:3][0]): its
+            # coordinates are relative to that virtual result
+            st.extra["virtual_results_skipped"] += 1
+            continue
         real.append(nc)
     if real:
         st.sig(shp, sig, len(real))
@@ -197,8 +236,9 @@ def check_query(st, doc, text, shp, segs, ptxt, cache):
     for ri, nc in enumerate(real):
         st.states += 1
         st.transitions += 1
-        # 1. parent / parentref
-        if not holds(nc.parent, nc.parentref, nc.node):
+        # 1. parent / parentref (only the document root has no parent)
+        if not holds(nc.parent, nc.parentref, nc.node) or (
+                nc.parent is None and nc.node is not doc):
             st.fail("%s|parentref" % sig, case,
                     "parent[parentref] is the returned node",
                     "result %d: parentref=%r in %s" % (
@@ -212,7 +252,8 @@ def check_query(st, doc, text, shp, segs, ptxt, cache):
             continue
         # 3. path objects are not shared between results
         if nc.path is not None:
-            if id(nc.path) in seen_paths and seen_paths[id(nc.path)] is not nc:
+            if id(nc.path) in seen_paths and \
+                    seen_paths[id(nc.path)].node is not nc.node:
                 st.fail("%s|shared-path-object" % sig, case,
                         "one YAMLPath per result", "result %d shares" % ri)
                 continue
@@ -231,10 +272,10 @@ def check_query(st, doc, text, shp, segs, ptxt, cache):
         other.separator = (PathSeparators.DOT
                            if printed.startswith("/") or printed == ""
                            else PathSeparators.FSLASH)
-        ends_anchor = False
+        # a path naming the node - or one of its ancestors - by an anchor
+        # resolves once per place that anchor is aliased
         esc = nc.path.escaped
-        if esc and esc[-1][0] is PathSegmentTypes.ANCHOR:
-            ends_anchor = True
+        ends_anchor = any(seg[0] is PathSegmentTypes.ANCHOR for seg in esc)
         for how, ptext in (("as-printed", printed), ("other", str(other))):
             if how == "other" and ptext.startswith("/") and \
                     not printed.startswith("/") and False:
